@@ -516,6 +516,8 @@ struct ObsDiag {
 struct Obs {
     /// per file: (identifier, start row, start col)
     defs: Vec<Vec<(String, usize, usize)>>,
+    /// per file: the file was parsed as far as its module declaration
+    parsed: Vec<bool>,
     diags: Vec<ObsDiag>,
 }
 
@@ -538,6 +540,7 @@ fn run_real(texts: &[String], syms: &[&str]) -> Result<Obs, (String, String)> {
                     .collect()
             })
             .collect();
+        let parsed = state.files.iter().map(|f| f.module.is_some()).collect();
         let slicec::compilation_state::CompilationState { ast, diagnostics, files } = state;
         let diags = diagnostics
             .into_inner()
@@ -553,7 +556,7 @@ fn run_real(texts: &[String], syms: &[&str]) -> Result<Obs, (String, String)> {
             .collect();
         drop(files);
         drop(ast);
-        Obs { defs, diags }
+        Obs { defs, parsed, diags }
     })
 }
 
@@ -609,7 +612,9 @@ fn check_files(fam: &str, files: &[FileSpec], mask: u32, out: &mut CaseOut, st: 
             }
         }
     }
-    let all_wf = refs.iter().all(|r| r.wellformed);
+    // a selected source line that is not Slice (the marker GARBAGE) makes the file ill-formed for the Slice parser
+    let garbage: Vec<bool> = texts.iter().zip(&refs).map(|(t, r)| t.split('\n').enumerate().any(|(i, l)| l.contains(GARBAGE) && r.kept_rows.contains(&(i + 1)))).collect();
+    let all_wf = refs.iter().all(|r| r.wellformed) && !garbage.iter().any(|g| *g);
     st.compiles += 1;
     if all_wf {
         st.wellformed += 1;
@@ -639,6 +644,9 @@ fn check_files(fam: &str, files: &[FileSpec], mask: u32, out: &mut CaseOut, st: 
     if !all_wf {
         for (i, r) in refs.iter().enumerate() {
             if r.wellformed {
+                if garbage[i] && !obs.diags.iter().any(|d| d.is_error && d.at.map_or(false, |a| a.0 == i)) {
+                    out.violate(format!("c06/{fam}/syntax-error-in-a-selected-line-not-reported"), format!("file {i} has a selected line that is not Slice but no error located in that file was reported; diagnostics: {:?}; input: {}", obs.diags, show_input(&texts, &syms)));
+                }
                 continue;
             }
             // "reported" = an E002 error located in this file on a directive line or where the text ends (an
@@ -657,6 +665,25 @@ fn check_files(fam: &str, files: &[FileSpec], mask: u32, out: &mut CaseOut, st: 
                         show_input(&texts, &syms)
                     ),
                 );
+            }
+        }
+        // The other, well-formed files of the set: whether they are still parsed is left open by the statement,
+        // but IF one was parsed, the definitions that reached the parser are those its own directives select
+        // (what an ill-formed neighbour defined or undefined before it failed stays in that neighbour).
+        if files.len() > 1 {
+            for (i, (f, r)) in files.iter().zip(&refs).enumerate() {
+                if !r.wellformed || garbage[i] || !obs.parsed[i] {
+                    continue;
+                }
+                let exp_names: BTreeSet<String> = f.lines.iter().enumerate().filter(|(li, l)| l.probe.is_some() && r.kept_rows.contains(&(li + 1))).map(|(_, l)| l.probe.as_ref().unwrap().name.clone()).collect();
+                let obs_names: BTreeSet<String> = obs.defs[i].iter().map(|d| d.0.clone()).collect();
+                if exp_names != obs_names {
+                    out.violate(
+                        format!("c06/{fam}/selected-lines-next-to-an-ill-formed-file"),
+                        format!("file {i} (well-formed, parsed): definitions that reached the parser {:?}, selected by its directives {:?}; input: {}", obs_names, exp_names, show_input(&texts, &syms)),
+                    );
+                    return;
+                }
             }
         }
         return;
@@ -1333,7 +1360,26 @@ impl Family for FileSets {
 
 /// Sets containing one ill-formed file: it must be reported whatever surrounds it.
 struct FileSetsWithBad;
-const BAD_FILES: [&[&str]; 5] = [&["#endif"], &["#if A"], &["#else"], &["#if A", "#else", "#elif B", "#endif"], &["#define"]];
+const BAD_FILES: [&[&str]; 15] = [
+    &["#endif"],
+    &["#if A"],
+    &["#else"],
+    &["#if A", "#else", "#elif B", "#endif"],
+    &["#define"],
+    // files that define / undefine symbols and THEN fail (recoverable directive errors, an unbalanced directive)
+    &["#define A", "#define B Bar"],
+    &["#define A", "#define C", "#endif"],
+    &["#undef A", "#undef B", "#else"],
+    &["#define B", "#undef C", "#if"],
+    &["#define A", "#define B", "#define C", "#foo"],
+    &["#undef A", "#undef B", "#undef C", "#endif X"],
+    &["#define A", "#undef B", "#define C", "#if A"],
+    // ... and files whose directives are fine but whose selected text is not Slice
+    &["#define A", "#define B", GARBAGE],
+    &["#undef A", "#define C", "#if C", GARBAGE, "#endif"],
+    &["#undef B", "#undef C", "#define A", GARBAGE, "#undef A"],
+];
+const GARBAGE: &str = "struct { oops";
 impl Family for FileSetsWithBad {
     fn name(&self) -> String {
         "file-sets/one-ill-formed-file-among-three".into()
@@ -1367,7 +1413,11 @@ impl FileSetsWithBad {
                 let mut f = FileSpec::new(l);
                 f.probe(&format!("F{i}L"), l, false);
                 for line in BAD_FILES[d[0] as usize] {
-                    f.directive(line, l);
+                    if line.starts_with('#') {
+                        f.directive(line, l);
+                    } else {
+                        f.lines.push(PLine { text: line.to_string(), probe: None });
+                    }
                 }
                 f.probe(&format!("F{i}L"), l, false);
                 files.push(f);
